@@ -27,6 +27,8 @@ From PV.Model Require Import LongNames CeAlloc.
 From PV.Proofs Require Import LongNamesProofs CeAllocProofs.
 From PV.Model Require Nlink.
 From PV.Proofs Require NlinkProofs.
+From PV.Model Require RREntries RRWalk.
+From PV.Proofs Require RREntriesProofs RRWalkProofs RRSLProofs.
 Import ListNotations.
 Local Open Scope Z_scope.
 
@@ -82,3 +84,48 @@ Proof. exact NlinkProofs.reshuffle_idempotent. Qed.
 Theorem C08_nlink_example :
   Nlink.run_probe [Nlink.AddDir [1]; Nlink.AddDir [1]] = [([], 0, 3, 3); ([1], 2, 2, 3)].
 Proof. exact NlinkProofs.nlink_ex_dup. Qed.
+
+(* ---- System Use entry codecs and the walker: Model/RREntries.v, Model/RRWalk.v ---------------------
+   (byte-level hand model of every entry class of rockridge.py -- SP RR CE PX ER ES PN SL NM CL PL RE TF SF
+   PD AL ST -- of the dispatcher loop of RockRidge.parse and of the recorder; tied by rrleaf.py) *)
+Theorem C08_entry_roundtrip : forall v e rest, RREntries.entry_ok v e = true -> (RREntriesProofs.is_pd e = true -> rest = []) ->
+  exists b, RREntries.rec_entry v e = Some b /\
+            RREntries.parse_entry (RREntries.sig_of e) (b ++ rest) = Some (e, RREntriesProofs.entry_aux v e).
+Proof. exact RREntriesProofs.entry_roundtrip. Qed.
+
+(* what a generic SUSP walker relies on: signature, then the entry's own total length, then version 1 *)
+Theorem C08_entry_self_describing : forall v e b, RREntries.entry_ok v e = true -> RREntries.rec_entry v e = Some b ->
+  firstn 2 b = RREntries.sig_of e /\ nth 2 b 0 = Prim.zlen b /\ nth 3 b 0 = 1.
+Proof. exact RREntriesProofs.entry_len_byte. Qed.
+
+(* a System Use area made of ANY list of recordable entries is walked back to exactly those entries *)
+Theorem C08_area_walk : forall v first tail, RRWalkProofs.pad_ok tail -> forall es, Forall (RRWalkProofs.good v first) es ->
+  forall bs pre fuel, RRWalk.record_list v es = Some bs -> (length es < fuel)%nat ->
+  RRWalk.walk_su fuel first (pre ++ bs ++ tail) (Prim.zlen pre) (Prim.zlen bs + Prim.zlen tail) =
+  Some (RRWalkProofs.annot v es (Prim.zlen tail)).
+Proof. exact RRWalkProofs.walk_su_records. Qed.
+
+Theorem C08_symlink_components_name_target : forall t, RREntries.sl_name (RREntries.components_of_target t) = t.
+Proof. exact RRSLProofs.sl_name_factory. Qed.
+
+(* the two known findings about symlink targets, as theorems about the faithful model *)
+Theorem C08_continued_dot_slice_refuted :
+  exists comps b s',
+    comps = RRSLProofs.slice_comps [[46]; [98]] /\ RREntries.sl_name comps = [46; 98] /\
+    RREntries.rec_sl (RREntries.mk_sl 0 comps) = Some b /\ RREntries.parse_sl b = Some s' /\
+    RREntries.sl_name (RREntries.sl_comps s') = [46; 47; 98] /\
+    RREntries.sl_name (RREntries.sl_comps s') <> RREntries.sl_name comps.
+Proof. exact RRSLProofs.sl_continued_dot_refuted. Qed.
+
+Theorem C08_root_only_target_refuted :
+  RREntries.parse_sl [83; 76; 7; 1; 0; 8; 0] = Some (RREntries.mk_sl 0 [RREntries.mk_comp 8 0 []]) /\
+  RREntries.sl_name [RREntries.mk_comp 8 0 []] = [] /\
+  LongNames.render [LongNames.pair_comp (8, [])] = [47].
+Proof. exact RRSLProofs.sl_name_root_only_refuted. Qed.
+
+Theorem C08_tf_roundtrip : forall t rest, RREntries.tf_ok t = true ->
+  RREntries.rec_tf t = Some (RREntries.enc_tf t) /\ RREntries.parse_tf (RREntries.enc_tf t ++ rest) = Some t /\
+  Prim.zlen (RREntries.enc_tf t) = RREntries.len_tf (RREntries.tf_flags t) /\
+  RREntries.len_tf (RREntries.tf_flags t) =
+    5 + RREntries.tf_each (RREntries.tf_flags t) * RREntriesProofs.count_set (RREntries.tf_flags t) RREntries.tf_indices.
+Proof. exact RREntriesProofs.tf_roundtrip. Qed.
